@@ -429,6 +429,14 @@ class Machine:
             v.live = False      # NaN values are checked once (equal_nan) and not fed into further operations
             self.c.inc('probe.nan-result-retired')
 
+    def shares_storage(self, u, v):
+        """alias classes are tracked by id, but an in-place operation may re-class its receiver while views of the old storage
+        stay in use: operands of an in-place binary operation must not overlap in memory (torch refuses or is undefined)"""
+        try:
+            return u.pt.physical.untyped_storage().data_ptr() == v.pt.physical.untyped_storage().data_ptr()
+        except Exception:
+            return False
+
     def retire_aliases(self, v):
         self.retire_if_nan(v)
         def stor(u):
@@ -1013,7 +1021,7 @@ class Machine:
         x = self.pick(a[0])
         if x is None:
             return None
-        part = self.live(lambda v: v is not x and tuple(v.model.shape) == tuple(x.model.shape) and v.model.dtype == x.model.dtype and v.alias != x.alias)
+        part = self.live(lambda v: v is not x and tuple(v.model.shape) == tuple(x.model.shape) and v.model.dtype == x.model.dtype and v.alias != x.alias and not self.shares_storage(v, x))
         if not part:
             return None
         y = part[a[1] % len(part)]
@@ -1038,7 +1046,7 @@ class Machine:
         x = self.pick(a[0], lambda v: self.floats(v))
         if x is None:
             return None
-        part = self.live(lambda v: v.sig == x.sig and self.floats(v) and v.alias != x.alias)
+        part = self.live(lambda v: v.sig == x.sig and self.floats(v) and v.alias != x.alias and not self.shares_storage(v, x))
         if not part:
             return None
         y = part[a[1] % len(part)]
